@@ -120,22 +120,32 @@ class GridModel(object):
     def reorder(self, block_names=None, connection_names=None):
         """Blocks (and connections) take the listed order.  A pair may be listed reversed with respect
         to the existing connection: that connection is then held under the reversed pair - the same
-        interface described from the other side.  A name that exists in neither form is an error."""
+        interface described from the other side.  A name that exists in neither form is an error.
+        Reordering never removes anything: blocks / connections the list does not name (e.g. MINC matrix
+        blocks when the order comes from a geometry) stay in the grid, after the named ones, in the order
+        they had.  (The documentation is silent on incomplete lists; the call may also refuse them - the
+        caller of the model decides that, see checks/c08.py.)"""
         if block_names:
-            if sorted(block_names) != sorted(self.blocks):
-                raise ModelError('reorder: not the blocks of the grid')
-            self.blocks = list(block_names)
+            if any(n not in self.binfo for n in block_names) or len(set(block_names)) != len(block_names):
+                raise ModelError('reorder: unknown or repeated block name')
+            self.blocks = list(block_names) + [b for b in self.blocks if b not in block_names]
         if connection_names:
-            conns, cinfo = [], {}
+            conns, cinfo, used = [], {}, set()
             for pair in map(tuple, connection_names):
-                if pair in self.cinfo:
+                if pair in self.cinfo and pair not in used:
                     cinfo[pair] = self.cinfo[pair]
-                elif pair[::-1] in self.cinfo:
+                    used.add(pair)
+                elif pair[::-1] in self.cinfo and pair[::-1] not in used:
                     i = self.cinfo[pair[::-1]]
                     cinfo[pair] = dict(i, d=i['d'][::-1], dircos=None if i['dircos'] is None else -i['dircos'])
+                    used.add(pair[::-1])
                 else:
                     raise ModelError('reorder: unknown connection')
                 conns.append(pair)
+            for pair in self.conns:
+                if pair not in used:
+                    conns.append(pair)
+                    cinfo[pair] = self.cinfo[pair]
             self.conns, self.cinfo = conns, cinfo
 
     def rename_blocks(self, blockmap):
